@@ -37,3 +37,17 @@ PROPS["C04"] = dict(
 PROPS["C05"] = dict(
     level_text="Round-trip and accept-iff theorems for NewKeyFromString/String over the HD model; correspondence on derived keys and near-valid 82-byte payloads with recomputed checksums (bit/byte corruptions, scalar and point edge values, wrong lengths, leading '1').",
     level_note=_hd_note, assumptions=COMMON_ASSUME)
+_bloom_note = ("Trusted: Lean kernel + propext/Classical.choice/Quot.sound; Go runtime; wire message structs; txscript.PushedData/GetScriptClass and transaction hashes are "
+               "external: their results are inputs of the model (printed by the harness with each case); double-SHA256 is lean/Bch/Prim/Sha2.lean in the driver and a parameter in theorems.")
+PROPS["C09"] = dict(
+    level_text="Theorems over the UInt32 model of MurmurHash3 and the bit-array filter (no false negatives by induction over operation histories; bit-exact BIP37 index formula; sizing clamps); every run replays generated histories on the real filter and compares every answer and the final bit array.",
+    level_note=_bloom_note, assumptions=COMMON_ASSUME)
+PROPS["C10"] = dict(
+    level_text="Theorems about matchTxAndUpdate / the block scan over any filter with add_matches/add_mono; correspondence on real wire transactions and blocks (spend graphs x block orders x flags), comparing verdicts, index lists of all three entry points and filter bytes.",
+    level_note=_bloom_note, assumptions=COMMON_ASSUME)
+PROPS["C11"] = dict(
+    level_text="extract(build) round-trip theorem for every n and subset by induction on tree height (generic hash); both Go builders are compared with the single model (all subsets for small n, every n<=65, random large n).",
+    level_note=_bloom_note, assumptions=COMMON_ASSUME)
+PROPS["C12"] = dict(
+    level_text="Soundness theorem with explicit merkle-branch witness for every message; the Go-shaped extractor model is proved equal to a parser-style independent evaluation; exhaustive small scope + mutated honest proofs compared with the real ExtractMatches.",
+    level_note=_bloom_note, assumptions=COMMON_ASSUME)
